@@ -3,33 +3,34 @@
    what options) and at Engine.Eval's result (stream labels of every entry). *)
 EXTENDS TraceCommon, DockerSel
 
-VARIABLES ctrs, ms, tstart, tend, shape, range,
+VARIABLES ctrs, ms, tstart, tend, shape, range, off,
           called,     \* container indices that received a ContainerLogs call in this run
           nent,       \* entries seen
           returned
-fam == <<ctrs, ms, tstart, tend, shape, range, called, nent, returned>>
+fam == <<ctrs, ms, tstart, tend, shape, range, off, called, nent, returned>>
 vars == <<tcvars, fam>>
 
 Instant == tstart = tend
 Sel == Selected(ctrs, ms)
 CaseOk == (\A i \in DOMAIN ctrs : Unambiguous(ctrs[i])) /\ (\A k \in DOMAIN ms : MatcherWellFormed(ms[k]))
 
-Init == TCInit /\ ctrs = <<>> /\ ms = <<>> /\ tstart = <<0, 0>> /\ tend = <<0, 0>> /\ shape = "" /\ range = 0 /\ called = {} /\ nent = 0
+Init == TCInit /\ ctrs = <<>> /\ ms = <<>> /\ tstart = <<0, 0>> /\ tend = <<0, 0>> /\ shape = "" /\ range = 0 /\ off = 0 /\ called = {} /\ nent = 0
         /\ returned = FALSE
 Start == Begin /\ ctrs' = Trace[l].in.ctrs /\ ms' = Trace[l].in.sel /\ tstart' = Trace[l].in.start /\ tend' = Trace[l].in.end
-         /\ shape' = Trace[l].in.shape /\ range' = Trace[l].in.range /\ called' = {} /\ nent' = 0 /\ returned' = FALSE
+         /\ shape' = Trace[l].in.shape /\ range' = Trace[l].in.range /\ off' = (IF Has(Trace[l].in, "offset") THEN Trace[l].in.offset ELSE 0) /\ called' = {} /\ nent' = 0 /\ returned' = FALSE
 
 \* a case that is not well formed is the harness's fault, never the code's: reject it as an environment error
-EvRun == IsEv("Run") /\ CaseOk /\ Accept /\ called' = {} /\ nent' = 0 /\ returned' = FALSE /\ UNCHANGED <<ctrs, ms, tstart, tend, shape, range>>
+EvRun == IsEv("Run") /\ CaseOk /\ Accept /\ called' = {} /\ nent' = 0 /\ returned' = FALSE /\ UNCHANGED <<ctrs, ms, tstart, tend, shape, range, off>>
 
 LogsOk == /\ Ev.ctr \in Sel /\ Ev.ctr \notin called
           \* log query: exactly the window, floored to seconds (instant: 30 s look-back first);
           \* metric query: must reach back to the first window's start, may be widened by at most the look-back
           /\ IF shape = "log" THEN Ev.sinceN = Since(tstart, Instant)
-             ELSE Ev.sinceN <= tstart[1] - range /\ Ev.sinceN >= tstart[1] - range - Lookback
-          /\ Ev.untilN = Until(tend)
+             \* (an offset o moves both ends back by o)
+             ELSE Ev.sinceN <= tstart[1] - off - range /\ Ev.sinceN >= tstart[1] - off - range - Lookback
+          /\ Ev.untilN = Until(tend) - (IF shape = "log" THEN 0 ELSE off)
           /\ Ev.stdout /\ Ev.stderr /\ Ev.timestamps /\ ~Ev.follow /\ Ev.tail \in {"all", ""}
-EvLogs == IsEv("ContainerLogs") /\ LogsOk /\ Accept /\ called' = called \cup {Ev.ctr} /\ UNCHANGED <<ctrs, ms, tstart, tend, shape, range, nent, returned>>
+EvLogs == IsEv("ContainerLogs") /\ LogsOk /\ Accept /\ called' = called \cup {Ev.ctr} /\ UNCHANGED <<ctrs, ms, tstart, tend, shape, range, off, nent, returned>>
 
 \* the container a line came from is known from the unique message the case put into its frames
 OriginOf(line) == {i \in DOMAIN ctrs : \E j \in DOMAIN ctrs[i].frames : ctrs[i].frames[j].msg = line}
@@ -37,12 +38,12 @@ EntryOk == /\ Cardinality(OriginOf(Ev.line)) = 1
            /\ LET c == CHOOSE i \in OriginOf(Ev.line) : TRUE IN
               /\ c \in Sel
               /\ PairsOf(Ev.labels) = CtrLabels(ctrs[c]) \cup {<<S_msg, Ev.line>>}
-EvEntry == IsEv("Entry") /\ EntryOk /\ Accept /\ nent' = nent + 1 /\ UNCHANGED <<ctrs, ms, tstart, tend, shape, range, called, returned>>
+EvEntry == IsEv("Entry") /\ EntryOk /\ Accept /\ nent' = nent + 1 /\ UNCHANGED <<ctrs, ms, tstart, tend, shape, range, off, called, returned>>
 
 RECURSIVE SumFrames(_)
 SumFrames(S) == IF S = {} THEN 0 ELSE LET i == CHOOSE i \in S : TRUE IN Len(ctrs[i].frames) + SumFrames(S \ {i})
 ReturnOk == Ev.outcome = "ok" /\ called = Sel /\ (shape = "log" => nent = SumFrames(Sel))
-EvReturn == IsEv("Return") /\ ReturnOk /\ Accept /\ returned' = TRUE /\ UNCHANGED <<ctrs, ms, tstart, tend, shape, range, called, nent>>
+EvReturn == IsEv("Return") /\ ReturnOk /\ Accept /\ returned' = TRUE /\ UNCHANGED <<ctrs, ms, tstart, tend, shape, range, off, called, nent>>
 
 Free == {"Query", "List", "Release", "OpenOk", "Eof", "Close", "RunEnd", "Point"}
 EvFree == More /\ ~skip /\ Ev.ev \in Free /\ Accept /\ UNCHANGED fam
